@@ -365,4 +365,7 @@ pub mod langkit;
 pub mod coop;
 pub mod factsworld;
 pub mod sessworld;
+#[cfg(feature = "policykit")]
 pub mod policykit;
+#[cfg(feature = "shmworld")]
+pub mod shmworld;
